@@ -194,9 +194,9 @@ Qed.
 Definition RegOk (g : registry) : Prop :=
   rg_vals g <> [] /\ NoDup (rg_vals g) /\ (forall v, In v (rg_vals g) -> is_val v = true).
 
-Lemma RegOk_length g : RegOk g -> (length (rg_vals g) <= 8)%nat.
+Lemma RegOk_length g : RegOk g -> (length (rg_vals g) <= 12)%nat.
 Proof.
-  intros (_ & Hnd & Hv). change 8%nat with (length VALS).
+  intros (_ & Hnd & Hv). change 12%nat with (length VALS).
   apply NoDup_incl_length; [exact Hnd|]. intros v Hin. apply In_VALS. apply Hv. exact Hin.
 Qed.
 
@@ -214,9 +214,9 @@ Qed.
 Lemma vals_facts w g :
   RegOk g -> rg_hub g = A_hub -> delegated (w_env w) A_hub <= LIM ->
   let vals := sort_asc (reg_query_validators w g) in
-  vals <> [] /\ (length vals <= 8)%nat /\ NoDup (map fst vals) /\
+  vals <> [] /\ (length vals <= 12)%nat /\ NoDup (map fst vals) /\
   (forall v, In v (map fst vals) -> is_val v = true) /\
-  sumN (map snd vals) <= 8 * LIM.
+  sumN (map snd vals) <= 12 * LIM.
 Proof.
   intros Hok Hh Hdel vals.
   pose proof (stable_sort_perm (fun a b : val * N => snd a <? snd b) (reg_query_validators w g)) as Hperm.
@@ -269,7 +269,7 @@ Lemma bond_phase w h g tb ts e rb :
     exchange_rate (hs_bst s1 + rb) (tk_supply ts) (cb_reqst (h_batch h)) = Some ser /\
     ser = rate_of (hs_bst s1 + rb) (claims_st h ts) /\
     Exec (set_env w e) [(A_disp, MWasm A_hub (WHub HBondRewards) [(usei, rb)])]
-         (set_env (set_hub w (set_h_state h (bonded_rewards s1 rb ser))) e') n /\ (n <= 9)%nat /\
+         (set_env (set_hub w (set_h_state h (bonded_rewards s1 rb ser))) e') n /\ (n <= 13)%nat /\
     same_misc e e' /\
     (forall a d, bal e' a d = if (a =? A_disp) && (d =? usei) then bal e a d - rb else bal e a d) /\
     delegated e' A_hub = delegated e A_hub + rb /\
@@ -371,7 +371,7 @@ Lemma seg_s w h g tb ts e keeper X ks :
   (forall v d, is_val v = true -> delegation e A_hub v <> None -> In d DENOMS -> pending e A_hub v d = 0) ->
   exists h' e' n,
     Exec (set_env w e) (map (fun m => (A_disp, m)) (st_msgs keeper X ks))
-         (set_env (set_hub w h') e') n /\ (n <= 10)%nat /\
+         (set_env (set_hub w h') e') n /\ (n <= 14)%nat /\
     (X - ks = 0 -> h' = h) /\
     (X - ks <> 0 -> exists s1 ser,
         query_actual_state (set_env w e) A_hub h = Some s1 /\
